@@ -144,6 +144,35 @@ def check_c01_c02(c, result):
     c.tie(tq2, res, ip, model, result)
     kmap = {qid: len(q['frm']) for qid, q in qs}
     oracle(c, tq2, res, model, result, c.files, kmap)
+    # (2b) each alias constrained through a different mechanism: a direct comparison on one alias, a predicate
+    # call (or a two-parameter predicate) on the other — what an analysis of "the comparisons of the condition"
+    # cannot see
+    kinds2 = [k for k in querygen.KINDS if querygen.KINDS[k][0] and c.vocab.get(k) is not None]
+    tq5, k5 = [], {}
+    for i in range(24 if c.tier == 'quick' else 300):
+        if len(kinds2) < 2:
+            break
+        k1, k2 = c.rng.sample(kinds2, 2)
+        a1, a2 = c.rng.choice([('cd', 'md'), ('x', 'y'), ('a', 'ab'), ('m', 'n')])
+        acc1, acc2 = c.rng.choice(querygen.KINDS[k1][0]), c.rng.choice(querygen.KINDS[k2][0])
+        v1, v2 = c.gen.value_for(k1, acc1).replace('\n', ' '), c.gen.value_for(k2, acc2).replace('\n', ' ')
+        A = '%s.%s() %s %s' % (a1, acc1, c.rng.choice(['==', '!=']), querygen.lit(v1))
+        body = 'f.%s() %s %s' % (acc2, c.rng.choice(['==', '!=']), querygen.lit(v2))
+        decl = 'predicate sel(%s f) { %s } ' % (k2, body)
+        decl2 = 'predicate both(%s g, %s f) { g.%s() != "" && %s } ' % (k1, k2, acc1, body)
+        shape = i % 8
+        w = ['%s && sel(%s)' % (A, a2), 'sel(%s) && %s' % (a2, A), '%s || sel(%s)' % (A, a2), '%s && !sel(%s)' % (A, a2),
+             '!(%s) && sel(%s)' % (A, a2), '(%s) && (sel(%s) || sel(%s))' % (A, a2, a2), '%s && both(%s, %s)' % (A, a1, a2), 'sel(%s)' % a2][shape]
+        d = decl2 if shape == 6 else decl
+        frm = 'FROM %s AS %s, %s AS %s' % ((k1, a1, k2, a2) if i % 2 else (k2, a2, k1, a1))
+        tq5.append(('x%d' % i, '%s%s WHERE %s SELECT %s.%s(), %s.%s()' % (d, frm, w, a1, acc1, a2, acc2)))
+        k5['x%d' % i] = 2
+    if tq5:
+        res5, ip5, _ = c.run(tq5)
+        model5 = c.model(tq5)
+        c.tie(tq5, res5, ip5, model5, result)
+        oracle(c, tq5, res5, model5, result, c.files, k5)
+        c.stats['mixed_mechanism_queries'] = len(tq5)
     # (3) no-WHERE queries: exactly the cross product
     qs3 = gen_queries(c, 20 if c.tier == 'quick' else 200, prefix='n', where=False, npreds=0)
     tq3 = [(qid, text_of(q, c.rng)) for qid, q in qs3]
@@ -216,6 +245,9 @@ def oracle(c, tq, res, model, result, files, kmap):
             extra = impl - spec
             if extra:
                 result.violations.append(payload_replay(pid, 'a reported combination does not satisfy WHERE, or is reported more than once', [t], 'extra: %s' % list(extra.items())[:2], files))
+            elif spec - impl:
+                # "each qualifying combination is reported exactly once": zero times is not once
+                result.violations.append(payload_replay(pid, 'a qualifying combination is not reported exactly once (it is missing)', [t], 'missing: %s' % list((spec - impl).items())[:2], files))
 
 
 # ------------------------------------------------------------------ C12
@@ -364,9 +396,46 @@ def check_c13(c, result):
             ids[k] = qid
             tq.append((qid, text_of(v, c.rng, 'plain' if k == 'orig' else None)))
         groups.append((ids, len(q['frm'])))
+    # nested predicates with value parameters: a wrapper passes its formals on to a helper, the same inner call
+    # text is reached under different bindings; every member of a group denotes the same condition
+    vkinds = [k for k in querygen.KINDS if querygen.KINDS[k][0] and c.vocab.get(k) is not None]
+    for gi in range(6 if c.tier == 'quick' else 60):
+        if not vkinds:
+            break
+        K = c.rng.choice(vkinds)
+        acc = c.rng.choice(querygen.KINDS[K][0])
+        vals = [v for v in c.vocab.get(K, {}).get(acc, []) if isinstance(v, str) and '\n' not in v] or ['alpha', 'delta']
+        v1, v2 = querygen.lit(c.rng.choice(vals)), querygen.lit(c.rng.choice(vals + ['delta']))
+        m = c.rng.choice(['m', 'md', 'x'])
+        frm, tail = 'FROM %s AS %s WHERE ' % (K, m), ' SELECT %s.%s()' % (m, acc)
+        HAS = 'predicate hasv(%s x, string s) { x.%s() == s } ' % (K, acc)
+        FIRST = 'predicate first(%s a, string t) { hasv(a, t) } ' % K
+        P, Q = 'predicate pp(%s b, string t) { hasv(b, t) } ' % K, 'predicate qq(%s b, string t) { !hasv(b, t) } ' % K
+        Q2 = 'predicate qq(%s v, string w) { !hasv(v, w) } ' % K
+        UNUSED = 'predicate unusedp(%s b, string t) { hasv(b, t) && b.%s() == "never" } ' % (K, acc)
+        ga = {'orig': frm + '%s.%s() == %s || %s.%s() == %s' % (m, acc, v1, m, acc, v2) + tail,
+              'helper': HAS + frm + 'hasv(%s, %s) || hasv(%s, %s)' % (m, v1, m, v2) + tail,
+              'wrapper': HAS + FIRST + frm + 'first(%s, %s) || first(%s, %s)' % (m, v1, m, v2) + tail,
+              'wrapper_declared_first': FIRST + HAS + frm + 'first(%s, %s) || first(%s, %s)' % (m, v1, m, v2) + tail,
+              'one_call_inlined': HAS + FIRST + frm + 'first(%s, %s) || hasv(%s, %s)' % (m, v1, m, v2) + tail}
+        gb = {'orig': frm + '%s.%s() == %s || !(%s.%s() == %s)' % (m, acc, v1, m, acc, v2) + tail,
+              'two_wrappers_same_formals': HAS + P + Q + frm + 'pp(%s, %s) || qq(%s, %s)' % (m, v1, m, v2) + tail,
+              'formals_renamed': HAS + P + Q2 + frm + 'pp(%s, %s) || qq(%s, %s)' % (m, v1, m, v2) + tail,
+              'unused_between': HAS + P + UNUSED + Q + frm + 'pp(%s, %s) || qq(%s, %s)' % (m, v1, m, v2) + tail,
+              'same_wrapper_twice': HAS + P + frm + 'pp(%s, %s) || !pp(%s, %s)' % (m, v1, m, v2) + tail}
+        for tag, grp in (('a', ga), ('b', gb)):
+            ids = {}
+            for name, text in grp.items():
+                qid = 'n%d%s_%s' % (gi, tag, name)
+                ids[name] = qid
+                tq.append((qid, text))
+            groups.append((ids, 1))
+        c.stats['c13_nested_value_groups'] += 2
     res, ip, _ = c.run(tq)
     model = c.model(tq)
     c.tie(tq, res, ip, model, result)
+    # direct oracle as well: the extracted SPECIFICATION (formals bound to entities / literal values) on every variant
+    oracle(c, tq, res, model, result, c.files, {qid: k for ids, k in groups for qid in ids.values()})
     texts = dict(tq)
     for ids, k in groups:
         base = res.get(ids['orig'], ('missing', ''))
@@ -441,6 +510,13 @@ def check_c15(c, result):
     res, ip, _ = c.run(tq)
     model = c.model(tq)
     c.tie(tq, res, ip, model, result)
+    # the JSON document and the text report, byte for byte against Engine/Render.v
+    res_text, _, _ = c.run(tq, mode='text')
+    rstats, rdis = engine.render_compare(c.work + '/graph.txt', tq, res, res_text, model, c.work, lambda qid, m: len(m['from'].split(',')))
+    c.stats.update(rstats)
+    if rdis and not any('Render.v' in t for t in result.tie_broken):
+        result.tie_broken.append('correspondence model/implementation (output rendering): ' + rdis[0][:600])
+        result.notes.append(dict(rendering_disagreements=rdis[:5], project=[p for p, _ in c.files]))
     for (qid, q), (_, t) in zip(qs, tq):
         oc, payload = res.get(qid, ('missing', ''))
         if oc != 'ok':
@@ -707,6 +783,34 @@ def mutate_tokens(toks, rng):
     return toks
 
 
+ODD_FORMS = """class Odd {
+  int g;
+  Odd() { }
+  void bare() { return; }
+  int loops(int a) {
+    for (;;) { break; }
+    for (int i = 0; ; ) { if (a > 0) break; }
+    for (; a < 3; ) { a++; continue; }
+    outer: while (true) { do { continue outer; } while (false); }
+    if (a > 1) a = 2;
+    assert a > 0;
+    { }
+    ;
+    new Odd();
+    new Odd() { };
+    foo();
+    this.loops(1).toString();
+    int v = switch (a) { default -> { yield 1; } };
+    int w = -a;
+    return a;
+  }
+  abstract void none();
+  interface I { void m(); }
+  enum E { A, B }
+}
+"""
+
+
 def unusual_queries():
     return ['FROM method_declaration AS m WHERE m.getName() SELECT m',            # non-boolean WHERE
             'FROM method_declaration AS m WHERE foo() SELECT m',                  # call without arguments, undeclared
@@ -808,9 +912,45 @@ def check_c10_c11(c, result):
                     cases.append(' '.join(sent[:i] + sent[i + 1:]))
     cases = list(dict.fromkeys(cases))
     tq = [('k%d' % i, t) for i, t in enumerate(cases)]
+    if pid == 'C10':
+        # every accessor of every kind as a SELECT item and inside WHERE, in BOTH output modes (the text
+        # report formats values itself), on a program with the incomplete forms of every statement
+        # (`return;`, `for (;;)`, `break;`, assert without message ...); plus aliases spelled like another kind
+        import vocab
+        kinds_t, kv_t, env_t = vocab.tables()
+        odd = c.work + '/oddproj'
+        qrun.write_project(odd, [('src/Sink.java', vocab.KITCHEN.encode()), ('src/Odd.java', ODD_FORMS.encode())])
+        acc_q = []
+        for k in kinds_t:
+            accs = env_t.get(kv_t.get(k, ''), [])
+            for a in accs:
+                acc_q.append('FROM %s AS x SELECT x.%s()' % (k, a))
+                acc_q.append('FROM %s AS x WHERE x.%s() == "q" SELECT x, x.%s()' % (k, a, a))
+        pairs = [(k1, k2) for k1 in kinds_t for k2 in kinds_t if k1 != k2 and env_t.get(kv_t.get(k2, ''))]
+        for k1, k2 in rng.sample(pairs, min(len(pairs), 60 if c.tier == 'quick' else 600)):
+            a = rng.choice(env_t[kv_t[k2]])
+            acc_q.append('FROM %s AS %s SELECT %s.%s()' % (k1, k2, k2, a))
+            acc_q.append('FROM %s AS a, %s AS b, %s AS c SELECT c.%s(), a, b' % (k1, k1, k2, a))
+        aq = [('acc%d' % i, t) for i, t in enumerate(acc_q)]
+        big = set()
+        for mode in ('json', 'text'):
+            aq = [(qid, t) for qid, t in aq if qid not in big]
+            resa, _, _ = c.run(aq, mode=mode, project=odd)
+            if mode == 'json':      # the quadratic text assembly again: leave the very large answers to JSON mode
+                big = {qid for qid, _ in aq if len(resa.get(qid, ('', ''))[1]) > (40000 if c.tier == 'quick' else 300000)}
+                c.stats['accessor_text_skipped_large'] = len(big)
+            for qid, t in aq:
+                oc, payload = resa.get(qid, ('missing', ''))
+                c.stats['accessor_%s_%s' % (mode, oc)] += 1
+                if oc not in ('ok', 'err'):
+                    result.violations.append(dict(property='C10', what='a query ended abnormally (%s) in %s mode' % (oc, mode), query=t, detail=payload[:300],
+                                                  project=[('src/Sink.java', vocab.KITCHEN), ('src/Odd.java', ODD_FORMS)],
+                                                  how='pathfinder query --project D %s--query <query>; exit status / panic' % ('--output json ' if mode == 'json' else '')))
+                    break
     for gname, project in (('nonempty', None), ('empty', '-')) if pid == 'C10' else (('nonempty', None),):
         res, ip, _ = c.run(tq, project=project)
         if project is None:
+            res_ne = res
             model = c.model(tq)
             c.tie(tq, res, ip, model, result)
         for qid, t in tq:
@@ -820,6 +960,21 @@ def check_c10_c11(c, result):
                 result.violations.append(dict(property='C10', what='a query ended abnormally (%s) against a %s project' % (oc, gname), query=t, detail=payload[:300],
                                               project=[(p, d.decode('utf-8', 'replace')) for p, d in c.files] if project is None else [],
                                               how='pathfinder query --project D --output json --query <query>; exit status / panic'))
+                break
+    if pid == 'C10':
+        # the same queries once more in text mode (outcome class only).  The text report is assembled by repeated
+        # string concatenation (quadratic in its size), so combinations in the hundreds of thousands take
+        # minutes there: those answers are legitimate, only slow, and are left out here
+        small = [(qid, t) for qid, t in tq if len(res_ne.get(qid, ('', ''))[1]) < (40000 if c.tier == 'quick' else 300000)]
+        c.stats['text_mode_skipped_large'] = len(tq) - len(small)
+        rest, _, _ = c.run(small, mode='text')
+        for qid, t in small:
+            oc, payload = rest.get(qid, ('missing', ''))
+            c.stats['text_%s' % oc] += 1
+            if oc not in ('ok', 'err'):
+                result.violations.append(dict(property='C10', what='a query ended abnormally (%s) in text mode' % oc, query=t, detail=payload[:300],
+                                              project=[(p, d.decode('utf-8', 'replace')) for p, d in c.files],
+                                              how='pathfinder query --project D --query <query>; exit status / panic'))
                 break
     if pid == 'C11':
         # structure: what the parser recovers from a generated sentence is what the generator wrote
